@@ -33,7 +33,7 @@ func (sm *storedMessages) add(msg *IncMessage, epoch uint64) {
 
 	if sm.messageCountPerSender[msg.Source] > limitPerSender {
 		sm.logger.Warnf("Received too many messages from %d (limit is %d) for topic %s",
-			msg.Source, limitPerSender, hex.EncodeToString(msg.Topic[:8]))
+			msg.Source, limitPerSender, hex.EncodeToString(msg.Topic))
 		return
 	}
 
